@@ -316,6 +316,10 @@ func c04Scenario(p c04P, b Bounds) *Scenario {
 							noise = `{"jsonrpc":"1.0","id":98,"result":"BADVERSION"}`
 						case "noid":
 							noise = `{"jsonrpc":"2.0","result":"NOID"}`
+						case "nullid-error":
+							noise = `{"jsonrpc":"2.0","id":null,"error":{"code":-32600,"message":"STRAY"}}`
+						case "noid-error":
+							noise = `{"jsonrpc":"2.0","error":{"code":-32700,"message":"STRAY"}}`
 						case "notify", "notify+hook":
 							noise = `{"jsonrpc":"2.0","method":"srvnote"}`
 						case "callback", "callback+hook":
@@ -666,6 +670,11 @@ func c04Scenarios(tier string) []*Scenario {
 		}
 	}
 	out = append(out, c04Reissue(b2), c04SendFault(bn), c04Abandoned("badparams", bn))
+	// a single request pending while stray messages arrive (nothing else they could be mistaken for)
+	for _, nz := range []string{"nullid-error", "noid-error", "noid", "unknown", "dup", "badversion"} {
+		out = append(out, c04Scenario(c04P{Callers: 1, Perm: []int{0}, Noise: nz}, bn))
+	}
+	out = append(out, c04Scenario(c04P{Callers: 2, Perm: []int{0, 1}, Noise: "nullid-error"}, bn))
 	for i, pm := range perms(3) {
 		if q && i%2 == 1 {
 			continue
